@@ -33,6 +33,7 @@ var groups = map[string]group{}
 var execs = map[string]func(op Op) any{}
 
 var opTimeout = 10 * time.Second
+var opDrain = 120 * time.Second
 
 func runOp(op Op) (result any, panicMsg string) {
 	name, _ := op["op"].(string)
@@ -57,6 +58,12 @@ func runOp(op Op) (result any, panicMsg string) {
 	case o := <-ch:
 		return o.v, o.msg
 	case <-time.After(opTimeout):
+		/* report the timeout, but let the runaway call finish (bounded) before the next op
+		   starts, so that leaked goroutines do not pile up and slow everything else down */
+		select {
+		case <-ch:
+		case <-time.After(opDrain):
+		}
 		return map[string]any{"timeout": true}, ""
 	}
 }
